@@ -208,8 +208,11 @@ def check(ctx):
             return False
 
         def is_now(x):
-            return bool(calls_in(x, "SystemTime::now")) and bool(calls_in(x, "Duration::as_secs")) \
-                and bool(find_all(x, lambda y: y[0] in ("constitem", "const", "static") and "UNIX_EPOCH" in str(y[1:])))
+            if not find_all(x, lambda y: y[0] in ("constitem", "const", "static") and "UNIX_EPOCH" in str(y[1:])):
+                # possibly behind a helper fn: look into small workspace helpers
+                hs = deep_calls(ctx.prog, x, "SystemTime::now")
+                return bool(hs) and bool(deep_calls(ctx.prog, x, "Duration::as_secs"))
+            return bool(calls_in(x, "SystemTime::now")) and bool(calls_in(x, "Duration::as_secs"))
         op = e[1]
         if is_exp(a) and is_now(b):
             # exp OP now : fresh iff exp >= now
@@ -220,7 +223,7 @@ def check(ctx):
     fm = [(bb, e, ls, fresh_atom(e)) for bb, e, ls in sw if fresh_atom(e)]
     # the clock is read when the cookie is examined, not earlier in the connection
     for bb, e, ls, lab in fm:
-        nows = [c[4] for c in calls_in(e, "SystemTime::now")]
+        nows = [c[0][4] for c in deep_calls(ctx.prog, e, "SystemTime::now")]
         recv = [c for c in calls_in(e) if c[5] and c[5][0].endswith("login::serverbound::CookieResponsePacket")]
         reqs = L.sites("send:login::clientbound::CookieRequest[passage:authentication]")
         okn = bool(nows) and bool(reqs) and all(always_before(g, reqs[0][0], nb) for nb in nows)
